@@ -26,20 +26,26 @@ class StoreWorldGen(WorldGen):
         cands = [x for x in anc if x != "a0" and h - self.alt[x]["height"] <= self.settle()]
         atvs = []
         k = n_atv if n_atv is not None else r.below(3)
+        # endorsements at every distance 1..settle; the boundary (distance == settlement interval, the oldest
+        # endorsement the live rule `containing - endorsed > settle => expired` still accepts) is chosen often
+        boundary = [x for x in cands if h - self.alt[x]["height"] == self.settle()]
         for _ in range(k):
             if not cands:
                 break
-            atvs.append(self.make_atv(r.choice(cands), payout=r.choice(["010203", "aabb", "cc"])))
+            e = r.choice(boundary) if boundary and r.chance(1, 3) else r.choice(cands)
+            atvs.append(self.make_atv(e, payout=r.choice(["010203", "aabb", "cc"])))
         vtbs = []
         k = n_vtb if n_vtb is not None else r.below(2)
         vs = self.cfg.get("vbk_settle", 400)
         for _ in range(k):
             known = sorted(self.alt[parent]["kv"], key=lambda v: int(v[1:]))
-            lo = self.vbk[self.vtip]["height"] + 1 - min(vs - 1, 8)
+            ch = self.vbk[self.vtip]["height"] + 1          # height of the containing VBK block
+            lo = ch - min(vs, 12)
             pool = [v for v in known if self.vbk[v]["height"] >= lo]
             if not pool:
                 break
-            e = r.choice(pool)
+            vb = [v for v in pool if ch - self.vbk[v]["height"] == vs]
+            e = r.choice(vb) if vb and r.chance(1, 2) else r.choice(pool)
             kb = set(self.alt[parent]["kb"])
             for w in vtbs:
                 kb |= set(self.vtb[w]["bctx"])
